@@ -9,6 +9,11 @@
                  readACLToken, checkProtocolID     = TTH.readKVInfo … checkProtocolID, by induction on the fuel (C03 C06 C10)
     Funcs/Skip   Binary.Skip / skipType (self-recursive, three loops, unsafe loads) / skipstr / p2i32
                                                    = skipBin, by induction on the depth, `oob` positions included (C02 C03 C08 C17)
+    Funcs/Fc     (*Base).FastRead, (*BaseResp).FastRead, (*ApplicationException).FastRead/BLength/FastWrite
+                                                   = fastReadBase, fastReadBaseResp, fastReadAppEx, bLengthAppEx, fastWriteAppEx (C03 C11)
+    Funcs/Tpl    the generic SkipDecoderTpl.Skip over an abstract SkipN back end = skipTplAt, and its three instances (C02 C03 C08)
+    Funcs/TTHDecode  ttheader.Decode over an abstract bufiox.Reader = decodeG, instances decodeRd / decodeCur (C03 C06 C10)
+    Funcs/StreamW    the 14 BufferWriter.Write* over an abstract bufiox.Writer = Wire.bw* over the log model (C01 C12)
 -/
 import Verif.Lemmas.Funcs.Read
 import Verif.Lemmas.Funcs.Write
@@ -16,6 +21,10 @@ import Verif.Lemmas.Funcs.Append
 import Verif.Lemmas.Funcs.TTH
 import Verif.Lemmas.Funcs.TTH2
 import Verif.Lemmas.Funcs.Skip
+import Verif.Lemmas.Funcs.Fc
+import Verif.Lemmas.Funcs.Tpl
+import Verif.Lemmas.Funcs.TTHDecode
+import Verif.Lemmas.Funcs.StreamW
 namespace Verif.FuncsEq
 
 /-- every whitelisted function was translated in this run (a refused one has no definition and no theorem) -/
